@@ -22,3 +22,6 @@ def run(ck):
                       "possibly missing charges) and block vectors; every listed operation through method / symmray / autoray; "
                       "results compared with the operation on the denotation, entry points with each other bit for bit")
     ck.conform(progs)
+    if ck.tier != "quick":
+        # the repository's own suite with integer data: value-level clauses on every small enough call
+        ck.suite_trace(intfill=True, limit=48)
